@@ -8,14 +8,14 @@ import XotModel.Lemmas.ForestBasic
 namespace XotModel
 open HTree
 
-theorem takeWhile_all {α : Type} (p : α → Bool) (l : List α) (h : ∀ a ∈ l, p a = true) :
+theorem ffx_takeWhile_all {α : Type} (p : α → Bool) (l : List α) (h : ∀ a ∈ l, p a = true) :
     l.takeWhile p = l := by
   induction l with
   | nil => rfl
   | cons a as ih =>
     simp [List.takeWhile, h a (List.mem_cons_self ..), ih (fun b hb => h b (List.mem_cons_of_mem _ hb))]
 
-theorem dropWhile_all {α : Type} (p : α → Bool) (l : List α) (h : ∀ a ∈ l, p a = true) :
+theorem ffx_dropWhile_all {α : Type} (p : α → Bool) (l : List α) (h : ∀ a ∈ l, p a = true) :
     l.dropWhile p = [] := by
   induction l with
   | nil => rfl
@@ -41,21 +41,21 @@ theorem mem_handlesList_ff {h : Nat} {ts : List HTree} :
   | cons k ks ih => simp [handlesList, ih]
 
 mutual
-  theorem find?_none_of_not_mem (h : Nat) : ∀ t : HTree, h ∉ handles t → find? h t = none
+  theorem ffx_find?_none_of_not_mem (h : Nat) : ∀ t : HTree, h ∉ handles t → find? h t = none
     | .node h' v ks => by
       intro hn
       simp only [handles, List.mem_cons, not_or] at hn
       unfold find?
       rw [if_neg (fun e => hn.1 e.symm)]
-      exact findList?_none_of_not_mem h ks hn.2
-  theorem findList?_none_of_not_mem (h : Nat) : ∀ ks : List HTree, h ∉ handlesList ks → findList? h ks = none
+      exact ffx_findList?_none_of_not_mem h ks hn.2
+  theorem ffx_findList?_none_of_not_mem (h : Nat) : ∀ ks : List HTree, h ∉ handlesList ks → findList? h ks = none
     | [] => by intro _; rfl
     | k :: ks => by
       intro hn
       simp only [handlesList, List.mem_append, not_or] at hn
       unfold findList?
-      rw [find?_none_of_not_mem h k hn.1]
-      exact findList?_none_of_not_mem h ks hn.2
+      rw [ffx_find?_none_of_not_mem h k hn.1]
+      exact ffx_findList?_none_of_not_mem h ks hn.2
 end
 
 theorem find?_self_ff (t : HTree) : find? t.handle t = some t := by
@@ -75,25 +75,25 @@ theorem findList?_append_of_none (h : Nat) (a b : List HTree) (hn : findList? h 
       rw [hk]
       exact ih hn
 
-theorem findList?_append_of_not_mem (h : Nat) (a b : List HTree) (hn : h ∉ handlesList a) :
+theorem ffx_findList?_append_of_not_mem (h : Nat) (a b : List HTree) (hn : h ∉ handlesList a) :
     findList? h (a ++ b) = findList? h b :=
-  findList?_append_of_none h a b (findList?_none_of_not_mem h a hn)
+  findList?_append_of_none h a b (ffx_findList?_none_of_not_mem h a hn)
 
-theorem findList?_cons_self (t : HTree) (b : List HTree) : findList? t.handle (t :: b) = some t := by
+theorem ffx_findList?_cons_self (t : HTree) (b : List HTree) : findList? t.handle (t :: b) = some t := by
   unfold findList?; rw [find?_self_ff]
 
-theorem findList?_cons_of_not_mem (h : Nat) (t : HTree) (b : List HTree) (hn : h ∉ handles t) :
+theorem ffx_findList?_cons_of_not_mem (h : Nat) (t : HTree) (b : List HTree) (hn : h ∉ handles t) :
     findList? h (t :: b) = findList? h b := by
   conv => lhs; unfold findList?
-  rw [find?_none_of_not_mem h t hn]
+  rw [ffx_find?_none_of_not_mem h t hn]
 
 mutual
-  theorem ctxBelow_none_of_not_mem (h : Nat) : ∀ t : HTree, h ∉ handlesList t.kids → ctxBelow h t = none
+  theorem ffx_ctxBelow_none_of_not_mem (h : Nat) : ∀ t : HTree, h ∉ handlesList t.kids → ctxBelow h t = none
     | .node p v ks => by
       intro hn
       unfold ctxBelow
-      exact ctxKids_none_of_not_mem h p [] ks hn
-  theorem ctxKids_none_of_not_mem (h p : Nat) : ∀ (left ks : List HTree), h ∉ handlesList ks →
+      exact ffx_ctxKids_none_of_not_mem h p [] ks hn
+  theorem ffx_ctxKids_none_of_not_mem (h p : Nat) : ∀ (left ks : List HTree), h ∉ handlesList ks →
       ctxKids h p left ks = none
     | _, [] => by intro _; rfl
     | left, k :: ks => by
@@ -104,12 +104,12 @@ mutual
       rw [if_neg hk]
       have : h ∉ handlesList k.kids := by
         intro hm; apply hn.1; rw [handles_eq]; exact List.mem_cons_of_mem _ hm
-      rw [ctxBelow_none_of_not_mem h k this]
-      exact ctxKids_none_of_not_mem h p (left ++ [k]) ks hn.2
+      rw [ffx_ctxBelow_none_of_not_mem h k this]
+      exact ffx_ctxKids_none_of_not_mem h p (left ++ [k]) ks hn.2
 end
 
-theorem ctxBelow_none_of_not_mem' (h : Nat) (t : HTree) (hn : h ∉ handles t) : ctxBelow h t = none := by
-  apply ctxBelow_none_of_not_mem
+theorem ffx_ctxBelow_none_of_not_mem' (h : Nat) (t : HTree) (hn : h ∉ handles t) : ctxBelow h t = none := by
+  apply ffx_ctxBelow_none_of_not_mem
   intro hm; apply hn; rw [handles_eq]; exact List.mem_cons_of_mem _ hm
 
 mutual
@@ -129,7 +129,7 @@ mutual
       rw [mapAt_of_not_mem_ff h g k hn.1, mapAtList_of_not_mem_ff h g ks hn.2]
 end
 
-theorem map_mapAt_of_not_mem (h : Nat) (g : HTree → HTree) (ks : List HTree) (hn : h ∉ handlesList ks) :
+theorem ffx_map_mapAt_of_not_mem (h : Nat) (g : HTree → HTree) (ks : List HTree) (hn : h ∉ handlesList ks) :
     ks.map (mapAt h g) = ks := by
   rw [← mapAtList_eq_map, mapAtList_of_not_mem_ff h g ks hn]
 
@@ -154,7 +154,7 @@ mutual
       rw [replaceBelow_of_not_mem_ff h g k this, replaceKids_of_not_mem_ff h g ks hn.2]
 end
 
-theorem map_replaceBelow_of_not_mem (h : Nat) (g : HTree → List HTree) (ks : List HTree)
+theorem ffx_map_replaceBelow_of_not_mem (h : Nat) (g : HTree → List HTree) (ks : List HTree)
     (hn : h ∉ handlesList ks) : ks.map (replaceBelow h g) = ks := by
   induction ks with
   | nil => rfl
@@ -165,21 +165,21 @@ theorem map_replaceBelow_of_not_mem (h : Nat) (g : HTree → List HTree) (ks : L
     simp [replaceBelow_of_not_mem_ff h g k this, ih hn.2]
 
 mutual
-  theorem ancestorsOf_none_of_not_mem (h : Nat) : ∀ t : HTree, h ∉ handles t → ancestorsOf h t = none
+  theorem ffx_ancestorsOf_none_of_not_mem (h : Nat) : ∀ t : HTree, h ∉ handles t → ancestorsOf h t = none
     | .node h' v ks => by
       intro hn
       simp only [handles, List.mem_cons, not_or] at hn
       unfold ancestorsOf
-      rw [if_neg (fun e => hn.1 e.symm), ancestorsOfList_none_of_not_mem h ks hn.2]
-  theorem ancestorsOfList_none_of_not_mem (h : Nat) : ∀ ks : List HTree, h ∉ handlesList ks →
+      rw [if_neg (fun e => hn.1 e.symm), ffx_ancestorsOfList_none_of_not_mem h ks hn.2]
+  theorem ffx_ancestorsOfList_none_of_not_mem (h : Nat) : ∀ ks : List HTree, h ∉ handlesList ks →
       ancestorsOfList h ks = none
     | [] => by intro _; rfl
     | k :: ks => by
       intro hn
       simp only [handlesList, List.mem_append, not_or] at hn
       unfold ancestorsOfList
-      rw [ancestorsOf_none_of_not_mem h k hn.1]
-      exact ancestorsOfList_none_of_not_mem h ks hn.2
+      rw [ffx_ancestorsOf_none_of_not_mem h k hn.1]
+      exact ffx_ancestorsOfList_none_of_not_mem h ks hn.2
 end
 
 mutual
